@@ -372,10 +372,23 @@ func (ex *Exec) applyContract(st *State, fr *Frame, x *ssa.Call, c *Contract, ke
 		st.Ghost["opmeter"] = st.Ghost["metered"]
 		st.Ghost["opseen"] = IntC(1)
 	} else if !c.Assumed && (callee == nil || ex.mayArith(callee, 0)) {
-		// a verified callee that may itself run such an operation: unknown afterwards unless its contract says
-		for _, gn := range []string{"opseen", "opmeter"} {
-			if !declaresGhost(c, gn) {
-				st.Ghost[gn] = ex.fresh("gh_"+gn, st.Ghost[gn].S)
+		// a verified callee that may itself run such an operation, and whose contract does not say: either it ran
+		// none (both unchanged), or the latest one ran at some moment of the call. A callee that does not declare
+		// modifies ghost("metered") is proved not to meter (frame.ghost.metered), so that moment's meter value is the
+		// current one; otherwise it is unknown.
+		if !declaresGhost(c, "opseen") && !declaresGhost(c, "opmeter") {
+			ran := ex.fresh("oprun", BoolSort)
+			at := st.Ghost["metered"]
+			if declaresGhost(c, "metered") {
+				at = ex.fresh("gh_opmeter", st.Ghost["opmeter"].S)
+			}
+			st.Ghost["opmeter"] = Ite(ran, at, st.Ghost["opmeter"])
+			st.Ghost["opseen"] = Ite(ran, IntC(1), st.Ghost["opseen"])
+		} else {
+			for _, gn := range []string{"opseen", "opmeter"} {
+				if !declaresGhost(c, gn) {
+					st.Ghost[gn] = ex.fresh("gh_"+gn, st.Ghost[gn].S)
+				}
 			}
 		}
 	}
